@@ -75,6 +75,21 @@ theorem skel_SyncWAL : dropNoise executor_WALFileType_SyncWAL = expSyncWAL := by
 theorem skel_replayTGData : dropNoise executor_WALFileType_replayTGData = expReplayTGData := by decide
 theorem skel_WriteBufferToFile : dropNoise executor_WriteBufferToFile = expWriteBufferToFile := by decide
 
+/-! ## start-up replay (`Replay`): the two decisions the model's `scanLive` / `replay` stand for -/
+
+/-- first pass: a CHECKPOINT record discards transaction groups only when it is COMMITCOMPLETE and
+    names a group whose data is in this file, and then it discards EVERY group up to that id;
+    any other checkpoint record is only recorded -/
+theorem skel_Replay_checkpoint_rule :
+    hasSub executor_WALFileType_Replay
+      ["case:CHECKPOINT{", "if:ok && txnStatus == COMMITCOMPLETE{", "range:tgData{", "if:tgid <= TGID{",
+       "setidx:tgData", "}", "}", "}", "else{", "setidx:txnStatePrimary", "}"] = true := by decide
+
+/-- second pass: the surviving groups are applied in ascending id (= commit) order -/
+theorem skel_Replay_ascending :
+    hasSub executor_WALFileType_Replay ["call:sort.Sort", "range:sortedTGIDs{"] = true ∧
+    executor_WALFileType_Replay.contains "call:sort.Reverse" = false := by decide
+
 /-! ## effect kinds -/
 
 inductive K where
